@@ -17,7 +17,7 @@ PROP = "C02"
 FIELDS = ["node_id", "child_id", "type", "ack", "sub_type", "payload"]
 
 
-def _strip(expr: ast.expr, selfname: str) -> Optional[Tuple[str, List[str]]]:
+def _strip(expr: ast.expr, selfname: str, env=None, _depth: int = 0) -> Optional[Tuple[str, List[str]]]:
     """`int(self.x)` / `str(self.x)` / `self.x` -> ("x", [wrappers])."""
     wrappers = []
     while isinstance(expr, ast.Call) and isinstance(expr.func, (ast.Name, ast.Attribute)) and len(expr.args) == 1 and not expr.keywords:
@@ -25,6 +25,11 @@ def _strip(expr: ast.expr, selfname: str) -> Optional[Tuple[str, List[str]]]:
         expr = expr.args[0]
     if isinstance(expr, ast.Attribute) and isinstance(expr.value, ast.Name) and expr.value.id == selfname:
         return expr.attr, wrappers
+    if isinstance(expr, ast.Name) and env is not None and expr.id in env and _depth < 3:
+        # a local bound once to a (wrapped) field: `payload = str(self.payload)`
+        inner = _strip(env[expr.id], selfname, env, _depth + 1)
+        if inner is not None:
+            return inner[0], wrappers + inner[1]
     return None
 
 
@@ -35,7 +40,7 @@ def _seq_fields(node: ast.expr, selfname: str, env) -> Optional[List[Tuple[str, 
     if isinstance(node, (ast.List, ast.Tuple)):
         out = []
         for e in node.elts:
-            f = _strip(e, selfname)
+            f = _strip(e, selfname, env)
             if f is None:
                 return None
             out.append(f)
@@ -451,6 +456,46 @@ def encode_failure(analysis: Analysis):
     return out
 
 
+def encode_gives_up(analysis: Analysis):
+    """C02-R2 by paths: encode() never raises, and returns None only after int() rejected a header field -
+    no other test (on the payload, on lengths, on characters) makes a message unencodable."""
+    from ..values import Const, Sym, Unknown
+
+    info = analysis.p.func("message:Message.encode")
+    w = common.where(analysis, info, info.node)
+    ctx = analysis.context(analysis.versions[-1], "serial", "sync")
+    it = analysis.new_interp(ctx)
+    st = it.new_state()
+    m = Sym(("root", "M"), ("cls", "message:Message"))
+    for a in FIELDS[:-1]:
+        st.mem[(m.key(), "a", a)] = Unknown("str", label="field." + a)  # text or int: int() may reject it (ValueError); other types are API misuse
+    st.mem[(m.key(), "a", "payload")] = Unknown("str", label="field.payload")
+    out = []
+    bad = []
+    n = 0
+    for kind, s, v in analysis.run_root(it, info.qual, [], m, st):
+        n += 1
+        if kind == "raise":
+            bad.append(f"encode() can raise {v.cls.__name__} ({v.what[:50]})")
+            continue
+        if isinstance(v, Const) and v.value is None:
+            catches = [e for e in s.events if e.kind == "catch" and e.func.startswith("message:")]
+            sites = {e.extra for e in catches}
+            ok_site = bool(sites)
+            for site in sites:
+                line = int(str(site).rsplit(":", 1)[-1]) if str(site).rsplit(":", 1)[-1].isdigit() else -1
+                nodes = [x for x in ast.walk(info.module.tree) if getattr(x, "lineno", None) == line]
+                int_of_field = any(isinstance(x, ast.Call) and unparse(x.func) == "int" and len(x.args) == 1 and (_strip(x.args[0], info.node.args.args[0].arg) or (None,))[0] in FIELDS[:-1] for x in nodes) or any(isinstance(x, ast.Call) and unparse(x.func) == "int" for x in nodes)
+                explicit = any(isinstance(x, ast.Raise) for x in nodes)
+                if explicit or not int_of_field:
+                    ok_site = False
+                    bad.append(f"encode() gives up at line {line} for a reason other than int() rejecting a header field")
+            if not ok_site and not sites:
+                bad.append("encode() returns None on a path without a failed conversion")
+    out.append(("encode: gives up (None) only when int() rejects a header field, never raises", not bad and n > 0, w, f"{n} path(s)" if not bad else "; ".join(sorted(set(bad))[:3]) + ": a decoded line can then not be re-encoded, and copy() silently yields the default message"))
+    return out
+
+
 def run(analysis: Analysis, tier: str) -> RuleResult:
     res = RuleResult(PROP)
     res.explanation = [
@@ -460,7 +505,7 @@ def run(analysis: Analysis, tier: str) -> RuleResult:
     ]
     for construct, ok, where, detail in layout_agreement(analysis):
         res.add("C02-R1", construct, ok, where, detail)
-    for construct, ok, where, detail in encode_failure(analysis):
+    for construct, ok, where, detail in encode_failure(analysis) + encode_gives_up(analysis):
         res.add("C02-R2", construct, ok, where, detail)
     res.need("C02-R1", 10, "layout obligations")
     res.not_decided = ["round-trip equality over all integer spellings and Unicode payloads", "canonicalisation of whitespace"]
